@@ -537,7 +537,7 @@ class MultiScaling(object):
                 self._compute_scale_dtype(scaling.left_input_source, raw_data_type, scaler_data_types),
                 self._compute_scale_dtype(scaling.right_input_source, raw_data_type, scaler_data_types))
         elif isinstance(scaling, NoOpScaling):
-            return raw_data_type.nptype
+            return self._compute_scale_dtype(scaling.input_source, raw_data_type, scaler_data_types)
         else:
             # Any other scaling type should produce double data
             return np.dtype('float64')
